@@ -1086,17 +1086,38 @@ def _decorate_new_with_invariants(new_func: CallableT) -> CallableT:
 
     def wrapper(*args, **kwargs):  # type: ignore
         """Pass the arguments to __new__ and check invariants on the result."""
+        next_new = new_func
+        if new_func is object.__new__ and len(args) > 0 and isinstance(args[0], type):
+            # This wrapper stands in for ``object.__new__`` in the class which has been decorated. A sub-class might
+            # have further bases (*e.g.*, ``dict`` or ``Exception``) whose ``__new__`` Python would have called
+            # had we not put the wrapper in front of them. We look for the ``__new__`` following this wrapper
+            # in the method resolution order of the class to be instantiated.
+            wrapper_passed = False
+            for klass in args[0].__mro__:
+                candidate = vars(klass).get("__new__", None)
+                if candidate is None:
+                    continue
+
+                if isinstance(candidate, staticmethod):
+                    candidate = candidate.__func__
+
+                if candidate is wrapper:
+                    wrapper_passed = True
+                elif wrapper_passed:
+                    next_new = candidate
+                    break
+
         if (
-            new_func is object.__new__
+            next_new is object.__new__
             and len(args) > 0
             and isinstance(args[0], type)
             and args[0].__init__ is not object.__init__
         ):
             # A sub-class defines a constructor. ``object.__new__`` accepts the arguments meant for that constructor
             # only as long as ``__new__`` is not overridden -- which we just did by wrapping it.
-            instance = new_func(args[0])
+            instance = next_new(args[0])
         else:
-            instance = new_func(*args, **kwargs)
+            instance = next_new(*args, **kwargs)
 
         # If the class of the instance defines a constructor, the instance is not constructed yet at this point.
         # The invariants must be checked only after the constructor, which is the job of the wrapper around it.
